@@ -108,6 +108,7 @@ class SymX:
         self.range_vars = {}        # z3 var name -> (var, bits)
         self.rng_limbs = {}         # z3 var name -> (var, [limb classes, little endian]) of collapsed limbs
         self.rng_bools = {}         # z3 Bool name -> (var, limb class) for 1-limb collapses
+        self.elim_classes = set()   # inverse-hint wires eliminated by the is_equal rewrite
         self.input_classes = set()
         for n in (inputs or []):
             self.input_classes.update(self.ir["named"][n])
@@ -301,6 +302,7 @@ class SymX:
                 td = self.term(d)
                 self.stats["eq_hints"] += 1
                 self.consumed_ops.update({(r, i), (r2, i2)})
+                self.elim_classes.update({inv, dn})   # existentially eliminated hint wires (left to the real generators on replay)
                 # the zero-product op
                 for (kind3, r3, i3, role3) in us:
                     if kind3 == "arith" and self.const.get(self.ops[(r3, i3)][5]) == 0:
